@@ -21,11 +21,12 @@ func (m *MerkleBlock) DecodeBinary(br *io.BinReader) {
 	m.Header = &block.Header{}
 	m.Header.DecodeBinary(br)
 
-	txCount := int(br.ReadVarUint())
-	if txCount > block.MaxTransactionsPerBlock {
+	cnt := br.ReadVarUint()
+	if cnt > block.MaxTransactionsPerBlock {
 		br.Err = block.ErrMaxContentsPerBlock
 		return
 	}
+	txCount := int(cnt)
 	m.TxCount = txCount
 	br.ReadArray(&m.Hashes, m.TxCount)
 	if txCount != len(m.Hashes) {
